@@ -192,6 +192,30 @@ example :
     (ReceivedInfo.new (.v6 0 0xFFFFC0000209)).isIpv6 = false ∧
     (ReceivedInfo.new (.v6 0 0xC0000209)).isIpv6 = true := by decide
 
+/-- **Documented defaults.**  `RrlParams::new` without any call of the prefix setters groups
+    sources by /24 (IPv4) and /56 (IPv6), as src/server/rrl.rs documents under "Defaults"
+    (`ipv4_prefix_len: 24`, `ipv6_prefix_len: 56`); the two default netmask literals are read
+    from the source by the extractor (`Gen.RRL_DEFAULT_IPV4_NETMASK/IPV6_NETMASK`), so every
+    stream theorem above (`MasksOf p 24 56 → …`) applies to an unconfigured `RrlParams`. -/
+theorem C27_default_masks {ne nx er w : Nat} {p : RrlParams}
+    (h : RrlParams.new ne nx er w = .ok p) : MasksOf p 24 56 := by
+  unfold RrlParams.new at h
+  by_cases h1 : ne = 0 <;> simp only [h1, if_true, if_false] at h
+  · cases h
+  by_cases h2 : nx = 0 <;> simp only [h2, if_true, if_false] at h
+  · cases h
+  by_cases h3 : er = 0 <;> simp only [h3, if_true, if_false] at h
+  · cases h
+  by_cases h4 : w = 0 <;> simp only [h4, if_true, if_false] at h
+  · cases h
+  by_cases h5 : (u32MulOverflows ne w || u32MulOverflows nx w || u32MulOverflows er w) = true
+  · rw [if_pos h5] at h; cases h
+  · rw [if_neg h5] at h
+    cases h
+    exact ⟨by decide, by decide,
+      show UInt32.ofNat Gen.RRL_DEFAULT_IPV4_NETMASK = _ by decide,
+      show UInt64.ofNat Gen.RRL_DEFAULT_IPV6_NETMASK = _ by decide⟩
+
 /-- `MasksOf` is satisfiable for every pair of lengths in range (the setters produce it) -/
 example : MasksOf C26.exParams 24 56 := (C26.C26_configure_valid C26.exParams_configured).2.1
 
